@@ -185,8 +185,8 @@ theorem manager_delete_refines (fs : List File) (hc : Chain fs) (hne : fs ≠ []
     (hk : ∀ f ∈ fs, f.start < f.splitOff → f.splitOff ≤ k)
     (hk0 : ∀ f0, fs.head? = some f0 → f0.start ≤ k) :
     Chain (strip ⟨fs, p⟩ k).files ∧
-    absEnts (strip ⟨fs, p⟩ k).files = (deleteFrom ⟨absEnts fs, absNext fs, t, p⟩ k).ents ∧
-    absNext (strip ⟨fs, p⟩ k).files = (deleteFrom ⟨absEnts fs, absNext fs, t, p⟩ k).next := by
+    absEnts (strip ⟨fs, p⟩ k).files = (deleteFrom { ents := absEnts fs, next := absNext fs, lastTerm := t, prePtr := p } k).ents ∧
+    absNext (strip ⟨fs, p⟩ k).files = (deleteFrom { ents := absEnts fs, next := absNext fs, lastTerm := t, prePtr := p } k).next := by
   obtain ⟨h1, h2, h3⟩ := strip_spec fs p hc hne k hk hk0
   rcases snoc_cases fs with h | ⟨ys, l, h⟩
   · exact absurd h hne
@@ -216,8 +216,8 @@ theorem manager_pointer_refines (full : File → Bool) (hfresh : ∀ f : File, f
     (hend : ∀ l, fs.getLast? = some l → i + 1 ≤ endIdx l)
     (hlo : ∀ f0, fs.head? = some f0 → f0.splitOff ≤ i + 1) :
     Chain (savePointerFs full fs i t) ∧
-    absEnts (savePointerFs full fs i t) = (LogStore.savePointer ⟨absEnts fs, absNext fs, lt, p⟩ i t).ents ∧
-    absNext (savePointerFs full fs i t) = (LogStore.savePointer ⟨absEnts fs, absNext fs, lt, p⟩ i t).next := by
+    absEnts (savePointerFs full fs i t) = (LogStore.savePointer { ents := absEnts fs, next := absNext fs, lastTerm := lt, prePtr := p } i t).ents ∧
+    absNext (savePointerFs full fs i t) = (LogStore.savePointer { ents := absEnts fs, next := absNext fs, lastTerm := lt, prePtr := p } i t).next := by
   obtain ⟨h1, h2, h3⟩ := savePointer_spec full hfresh fs hc i t hend hlo
   refine ⟨h1, ?_, ?_⟩
   · by_cases hne : fs = []
